@@ -1,6 +1,7 @@
 import RoaringModel.Driver.Core
 import RoaringModel.Driver.Ops32
 import RoaringModel.SpecCursor64
+import RoaringModel.Driver.TreemapAlg
 /-! Driver handlers: `RoaringTreemap` mutation/query (C10) and 64-bit iterators (C12) -/
 namespace Roaring.Driver
 open Roaring
@@ -67,7 +68,7 @@ def jDrain (back : Bool) (fuel : Nat) (j : JIter) (n : Nat) (h : UInt64) : JIter
 
 def showHint (p : Nat × Option Nat) : String := s!"{p.1},{showOpt p.2}"
 
-def opsTreemap : Handler := fun st toks =>
+def opsTreemapCore : Handler := fun st toks =>
   let t? (t : String) := (parseTSlot 't' t).bind fun i => (st.getT i).map fun s => (i, s)
   let j? (t : String) := (parseTSlot 'j' t).bind fun i => (st.getJ i).map fun s => (i, s)
   match toks with
@@ -218,5 +219,11 @@ def opsTreemap : Handler := fun st toks =>
 where
   showParts' (l : List (Option (Nat × Nat))) : String :=
     if l.isEmpty then "-" else ",".intercalate (l.map showOptPart)
+
+/-- family `treemap`: mutation/query + iterators (C10, C12), then algebra (C11) -/
+def opsTreemap : Handler := fun st toks =>
+  match opsTreemapCore st toks with
+  | some r => some r
+  | none => opsTreemapAlg st toks
 
 end Roaring.Driver
